@@ -121,4 +121,25 @@ RollupOf(tb, cfg, names) ==
     LET R == ResultsOf(tb, cfg, names)
         vs == SetToSeq({ r.flags : r \in R })
     IN  IF R = {} THEN <<>> ELSE Compare(vs)
+
+-----------------------------------------------------------------------------
+(* Life cycle of one store object.  Its state is the collected run plus     *)
+(* whether compute_aggregate has been called; save is a pure observation:   *)
+(*   New            aggd = FALSE                                            *)
+(*   Aggregate      aggd' = TRUE   (calling it again changes nothing: the   *)
+(*                  roll-up of the results plus their roll-up is the same   *)
+(*                  roll-up, AggIdempotent)                                 *)
+(*   Save(o)        state unchanged; the frame satisfies FrameOK, holds the *)
+(*                  roll-up column iff aggd, and is the same frame whenever *)
+(*                  the same options are used in the same state             *)
+NoFilters(o) == ~o.include.given /\ ~o.exclude.given
+\* what the roll-up column must be for a save without filters: absent before compute_aggregate
+RollupWanted(tb, cfg, names, aggd) == IF aggd THEN RollupOf(tb, cfg, names) ELSE <<>>
+RollupOK(roll, tb, cfg, names, aggd) ==
+    LET want == RollupWanted(tb, cfg, names, aggd) IN
+    IF want = <<>> THEN (aggd \/ ~roll.found) ELSE (roll.found /\ roll.vals = want)
+AggIdempotent(tb, cfg, names) ==
+    LET R == ResultsOf(tb, cfg, names)
+        vs == SetToSeq({ r.flags : r \in R })
+    IN  R # {} => Compare(Append(vs, Compare(vs))) = Compare(vs)
 =============================================================================
